@@ -104,10 +104,6 @@ func (g *Genesis) msgEth(t TxReq) (action.Msg, []string, bool) {
 	return nil, nil, false
 }
 
-func (g *Genesis) buildOLVM(t TxReq) *Built {
-	panic("OLVM not built yet")
-}
-
 var extNames = func() map[string]string {
 	m := map[string]string{}
 	for _, x := range extPool {
